@@ -106,6 +106,19 @@ class Ext:
         return '<ext {}>'.format(self.name)
 
 
+class Opaque:
+    """stand-in for an object of an external library: its methods are Python
+    callables supplied by the rule (methods[name](cx, args, kwargs))"""
+
+    def __init__(self, name, methods=None, attrs=None):
+        self.name = name
+        self.methods = methods or {}
+        self.attrs = attrs or {}
+
+    def __repr__(self):
+        return '<opaque {}>'.format(self.name)
+
+
 class BoundBuiltin:
     def __init__(self, recv, name):
         self.recv = recv
@@ -358,6 +371,7 @@ class Cx:
         self.assumed = []
         self.depth = 0
         self.hooks = {}            # function qual -> python callable
+        self.ext_hooks = {}        # external dotted name -> python callable
         self.module_vars = {}      # (module, name) -> value (mutable globals)
         self._disp = {}
         self._gcache = {}
@@ -409,7 +423,7 @@ class Cx:
             return True
         if v is CE.UNKNOWN:
             raise CxError('test on an unknown constant')
-        if isinstance(v, (Obj, ClassVal, FuncVal, ModVal, Ext)):
+        if isinstance(v, (Obj, ClassVal, FuncVal, ModVal, Ext, Opaque)):
             return True
         return bool(v)
 
@@ -843,6 +857,12 @@ class Cx:
                 raise PyRaise('AttributeError', (name,))
         if isinstance(v, CE.Instance):
             raise CxError('attribute of a module-level instance')
+        if isinstance(v, Opaque):
+            if name in v.attrs:
+                return v.attrs[name]
+            if name in v.methods:
+                return BoundBuiltin(v, name)
+            raise CxError('attribute {} of {}'.format(name, v))
         if isinstance(v, PyRaise) and name == 'args':
             return tuple(v.args_)
         if v is CE.UNKNOWN:
@@ -956,8 +976,22 @@ class Cx:
             fr.env[st.name] = FuncVal(fi, closure=fr)
         elif isinstance(st, ast.Global):
             fr.globals_.update(st.names)
-        elif isinstance(st, (ast.Import, ast.ImportFrom)):
-            raise CxError('import inside a function')
+        elif isinstance(st, ast.Import):
+            for a in st.names:
+                top = a.name.split('.')[0]
+                if top in self.model.modules or a.name in self.model.modules:
+                    raise CxError('import of a package module inside a '
+                                  'function')
+                fr.env[a.asname or top] = Ext(a.name if a.asname else top)
+        elif isinstance(st, ast.ImportFrom):
+            if st.level or (st.module or '').split('.')[0] == 'pico8':
+                raise CxError('import of a package module inside a function')
+            for a in st.names:
+                fr.env[a.asname or a.name] = Ext(st.module + '.' + a.name)
+        elif isinstance(st, ast.ClassDef):
+            from ..srcmodel import ClassInfo
+            info = ClassInfo(fr.module, st)
+            fr.env[st.name] = ClassVal(info)
         else:
             raise CxError('statement outside the model: ' +
                           type(st).__name__)
@@ -1673,7 +1707,7 @@ BUILTIN_NAMES = {'len', 'range', 'enumerate', 'zip', 'list', 'tuple', 'bytes',
                  'filter', 'dict', 'set', 'frozenset', 'super', 'getattr',
                  'setattr', 'hasattr', 'type', 'repr', 'print', 'round',
                  'float', 'object', 'callable', 'id', 'bin', 'oct', 'pow',
-                 'memoryview', 'slice', 'issubclass'}
+                 'memoryview', 'slice', 'issubclass', 'open'}
 
 
 # ------------------------------------------------------------- builtins
@@ -1736,6 +1770,8 @@ def int_of(cx, s, base):
 
 def call_ext(cx, name, args, kw):
     n = name
+    if n in cx.ext_hooks:
+        return cx.ext_hooks[n](cx, args, kw)
     if n in EXC_NAMES:
         return PyRaise(n, tuple(args))
     if n == 'len':
@@ -2097,6 +2133,10 @@ def _strip_pred(cx, recv, args):
 
 
 def call_method(cx, recv, name, args, kw):
+    if isinstance(recv, Opaque):
+        if name not in recv.methods:
+            raise CxError('method {} of {}'.format(name, recv))
+        return recv.methods[name](cx, args, kw)
     if isinstance(recv, _Super):
         m = cx.model.lookup_method(recv.selfv.cls if isinstance(
             recv.selfv, Obj) else recv.cls, name, after=recv.cls)
@@ -2260,6 +2300,7 @@ def call_method(cx, recv, name, args, kw):
                 'rpartition', 'lower', 'upper', 'isdigit', 'isspace',
                 'isalpha', 'isalnum', 'zfill', 'ljust', 'rjust', 'title',
                 'islower', 'isupper', 'center', 'expandtabs', 'casefold',
+                'ljust', 'rjust', 'zfill',
                 'removeprefix', 'removesuffix'):
         if not isinstance(recv, Seq) and not any(
                 isinstance(a, Seq) or is_sym(a) for a in args):
@@ -2398,6 +2439,26 @@ def seq_text_method(cx, recv, k, its, name, args, kw):
                 out.append(bytes([x]).lower()[0])
             else:
                 out.append(x.lower())
+        return cx.mk(k, out)
+    if name in ('ljust', 'rjust', 'center', 'zfill'):
+        width = args[0]
+        if not isinstance(width, int) or isinstance(width, bool):
+            raise PyRaise('TypeError', ('width must be an integer',))
+        if name == 'zfill':
+            fill = [ord('0') if k != 'str' else '0']
+        else:
+            fill = cx.items(args[1]) if len(args) > 1 else (
+                [' '] if k == 'str' else [32])
+            if len(fill) != 1:
+                raise PyRaise('TypeError', ('fill must be one character',))
+        pad = max(0, width - len(its))
+        if name == 'ljust':
+            out = list(its) + fill * pad
+        elif name in ('rjust', 'zfill'):
+            out = fill * pad + list(its)
+        else:
+            left = pad // 2 + (pad & width & 1)
+            out = fill * left + list(its) + fill * (pad - left)
         return cx.mk(k, out)
     if name == 'splitlines':
         raise CxError('splitlines on symbolic text')
